@@ -43,6 +43,7 @@ Proof.
     + intros E. destruct (HT _ _ E). constructor; auto.
   - intros E. destruct (HT _ _ E). constructor; auto.
   - intros E. destruct (HT _ _ E). constructor; auto.
+  - intros E. destruct (HT _ _ E). constructor; auto.
   - intros E. destruct (HT _ _ E) as [A B C D]. constructor; auto. cbn [clock]. intros F. specialize (C F). lia.
   - destruct (Nat.eqb_spec p0 p).
     + intros E; inversion E; subst. destruct (HT _ _ Ep) as [A B C D]. constructor; cbn; auto; try discriminate. lia.
